@@ -174,7 +174,7 @@ def run_one(ck, prog):
         if name == "socket":
             okfd = mentions(fd, ctx.prov, lambda z: z[0] == "param" and "domain" in str(z[2]))   # IORING_OP_SOCKET carries the address family in `fd`
         ck.ob("C18.4", f"new_{m.group(1)}|fd", okfd, fn=p, detail=f"the fd field must come from the descriptor / dir-fd parameter, found {show(fd)}")
-    ck.floor("C18.4", "SQE constructors", n, 19)
+    ck.floor("C18.4", "SQE constructors", n, 16 if ck.config == "C" else 19)   # three constructors need alloc
     uf = prog.fns.get(Q + "unpack_dir_fd")
     if ck.anchor("C18.4", "unpack_dir_fd", uf):
         c2 = prog.ctx(uf)
